@@ -310,6 +310,12 @@ int run()
         return vx::finish();
     }
 
+    // ---- part (b): the real PeerManager on a regtest node (fork-per-transition search, see partb.cpp). It runs first,
+    // while this process image is still small (fork cost), and its state/transition counts are added below.
+    c39_part_b(big, partb_workers);
+    const uint64_t partb_states = E.states.load(), partb_transitions = E.transitions.load();
+    const bool partb_exhaustive = E.exhaustive;
+
     hb::Bfs bfs;
     bfs.nops = (int)OPS.size();
     bfs.max_depth = depth;
@@ -324,10 +330,10 @@ int run()
         E.sample(s);
     };
     bfs.run();
-    E.states = bfs.states;
-    E.transitions = bfs.transitions;
-    E.traces_validated = bfs.transitions;
-    E.exhaustive = bfs.complete;
+    E.states = bfs.states + partb_states;
+    E.transitions = bfs.transitions + partb_transitions;
+    E.traces_validated = bfs.transitions + partb_transitions;
+    E.exhaustive = bfs.complete && partb_exhaustive;
     E.set("max_depth_completed", (uint64_t)bfs.depth_done);
     E.set("max_depth_target", (uint64_t)depth);
     E.set("operations_in_alphabet", (uint64_t)OPS.size());
@@ -349,8 +355,6 @@ int run()
     E.assume("only the PrivateBroadcast object is explored; the net_processing side of the property (getdata after inv, private-broadcast connections) is not covered");
     if (bfs.complete && vx::rep().violations == 0)
         for (auto& g : gates) if (g.v == 0) { printf("HARNESS-ERROR vacuous: never observed '%s'\n", g.n); vx::write_evidence(); return 2; }
-    // ---- part (b): the real PeerManager on a regtest node (fork-per-transition search, see partb.cpp)
-    c39_part_b(big, partb_workers);
     return vx::finish();
 }
 
